@@ -28,6 +28,10 @@ func readRules(input io.Reader) ([]rule, error) {
 		}
 		// Trim spaces
 		pattern = strings.TrimSpace(pattern)
+		// Ignore lines that contain only whitespace
+		if len(pattern) == 0 {
+			continue
+		}
 		// Ignore comments
 		if pattern[0] == '#' {
 			continue
@@ -36,8 +40,12 @@ func readRules(input io.Reader) ([]rule, error) {
 		rule := rule{}
 		// Exclusions
 		if pattern[0] == '!' {
-			rule.negated = true
 			pattern = pattern[1:]
+			// Ignore a negation that negates nothing
+			if len(pattern) == 0 {
+				continue
+			}
+			rule.negated = true
 			// Mark all previous rules as having negations after it
 			for i := currentRuleIndex; i >= 0; i-- {
 				if rules[i].negationsAfter {
